@@ -162,7 +162,37 @@ def common_checks(fails, stats, d0, d1, sv_at, m_at, limits, bonds, cfg, s_rows,
     return dist2, tol2
 
 
-def chain_check(new, cfg, limits, fails, stats):
+class GesddFault:
+    """FAULT PATH: makes the k-th `scipy.linalg.svd(..., lapack_driver="gesdd")` call issued while compress() runs raise
+    LinAlgError (what SciPy does when gesdd does not converge); every other call is the genuine routine.  The code
+    under test calls `scipy.linalg.svd` through the module attribute, so that attribute is wrapped."""
+
+    def __init__(self, fail_at):
+        self.fail_at = fail_at
+        self.count = 0
+        self.fired = 0
+
+    def __enter__(self):
+        import scipy.linalg
+        self.mod = scipy.linalg
+        self.real = scipy.linalg.svd
+        if self.fail_at:
+            def flaky(a, *args, **kwargs):
+                if kwargs.get("lapack_driver", "gesdd") == "gesdd":
+                    self.count += 1
+                    if self.count == self.fail_at:
+                        self.fired += 1
+                        raise self.mod.LinAlgError("SVD did not converge (injected)")
+                return self.real(a, *args, **kwargs)
+            self.mod.svd = flaky
+        return self
+
+    def __exit__(self, *exc):
+        self.mod.svd = self.real
+        return False
+
+
+def chain_check(new, cfg, limits, fails, stats, fault=None):
     """`new`: a canonical chain with its compression settings installed; compresses it IN PLACE and checks the
     result against the dense vector it represented before."""
     n = len(new)
@@ -172,7 +202,9 @@ def chain_check(new, cfg, limits, fails, stats):
     before = list(new.bond_dims)
     to_right = bool(new.to_right)
     temp = cfg.get("temp")
-    new, s_arr = new.compress(temp_m_trunc=temp, ret_s=True)
+    with GesddFault(fault) as inj:
+        new, s_arr = new.compress(temp_m_trunc=temp, ret_s=True)
+    stats["fault_fired"] = inj.fired
     d1 = np.asarray(new.todense()).ravel()
     after = list(new.bond_dims)
     if after[0] != 1 or after[-1] != 1 or len(after) != n + 1:
@@ -208,7 +240,7 @@ def check_mps(case):
         raise Skip("state construction failed: %s: %s" % (type(e).__name__, str(e)[:120]))
     new = mps.copy()
     limits = install_config(new, case["cfg"], case["n"] + 1)
-    chain_check(new, case["cfg"], limits, fails, stats)
+    chain_check(new, case["cfg"], limits, fails, stats, fault=case.get("gesdd_fail_at"))
     return fails, stats
 
 
@@ -261,12 +293,14 @@ def make_ttns(case):
     return t, basis, bl
 
 
-def tree_check(new, basis, bl, cfg, limits, fails, stats):
+def tree_check(new, basis, bl, cfg, limits, fails, stats, fault=None):
     """`new`: a canonical TTNS with its compression settings installed; compressed IN PLACE and checked"""
     d0 = np.asarray(new.todense(bl)).copy()
     n0 = np.linalg.norm(d0)
     before = list(new.bond_dims)
-    new, s_arr = new.compress(temp_m_trunc=cfg.get("temp"), ret_s=True)
+    with GesddFault(fault) as inj:
+        new, s_arr = new.compress(temp_m_trunc=cfg.get("temp"), ret_s=True)
+    stats["fault_fired"] = inj.fired
     d1 = np.asarray(new.todense(bl))
     after = list(new.bond_dims)
     bonds = [k for k, nd in enumerate(new.node_list) if nd.parent is not None]
@@ -298,7 +332,7 @@ def check_ttns(case):
         raise Skip("state construction failed: %s: %s" % (type(e).__name__, str(e)[:120]))
     new = t.copy()
     limits = install_config(new, case["cfg"], len(case["parents"]) + 1)
-    tree_check(new, basis, bl, case["cfg"], limits, fails, stats)
+    tree_check(new, basis, bl, case["cfg"], limits, fails, stats, fault=case.get("gesdd_fail_at"))
     return fails, stats
 
 
